@@ -1112,6 +1112,35 @@ pub fn gen(tier: &str, rng: &mut Rng, emit: &mut dyn FnMut(String)) {
             }
         }
     }
+    // a few fixed medium documents (longer arrays, deeper nesting, look-alike keys) with every pointer and every operation
+    for be in ["json", "toml"] {
+        let common = be == "toml";
+        let arr = |v: Vec<i64>| Doc::Arr(v.into_iter().map(Doc::Int).collect());
+        let obj = |kv: Vec<(&str, Doc)>| Doc::Obj(kv.into_iter().map(|(k, v)| (k.to_string(), v)).collect());
+        let docs = vec![
+            arr(vec![1, 2, 3]),
+            arr(vec![1, 2, 3, 4, 5]),
+            obj(vec![("a", arr(vec![1, 2, 3, 4])), ("b", Doc::Arr(vec![]))]),
+            obj(vec![("a/b", Doc::Int(1)), ("a~1b", Doc::Int(2)), ("~0", Doc::Int(3)), ("~", Doc::Int(4)), ("~01", Doc::Int(5)), ("~1", Doc::Int(6)), ("/", Doc::Int(7))]),
+            obj(vec![("a~1b", obj(vec![("x", Doc::Bool(true))])), ("~0", obj(vec![("x", Doc::Bool(false))]))]),
+            Doc::Arr(vec![arr(vec![1, 2, 3]), obj(vec![("k", arr(vec![7, 8, 9]))]), Doc::Str("s".into())]),
+            obj(vec![("list", Doc::Arr(vec![obj(vec![("id", Doc::Int(1))]), obj(vec![("id", Doc::Int(2))]), obj(vec![("id", Doc::Int(3))])]))]),
+            obj(vec![("0", arr(vec![1])), ("-", arr(vec![2])), ("00", Doc::Int(3)), ("01", obj(vec![])), ("+1", Doc::Int(4))]),
+        ];
+        for d in docs {
+            let ds = doc_str(&d);
+            emit(format!("tree {be} {ds} N"));
+            for p in pointers_for(&d) {
+                let x = hex(p.as_bytes());
+                for o in ["R", "M", "D"] {
+                    emit(format!("tree {be} {ds} {o} {x}"));
+                }
+                emit(format!("tree {be} {ds} A {x} {}", doc_str(&values(common)[0])));
+                emit(format!("tree {be} {ds} A {x} {}", doc_str(&values(common)[2])));
+                emit(format!("tree {be} {ds} W {x} {}", doc_str(&values(common)[1])));
+            }
+        }
+    }
     // random documents and pointers
     let n = if tier == "thorough" { 100_000 } else { 6_000 };
     for i in 0..n {
